@@ -20,7 +20,7 @@ meta={
  'needs_to_manifest': needs,
  'confirmed': {
    'demo_on_unchanged_tree': [l for l in section('demo on the unchanged tree (must pass)')][-1:] ,
-   'demo_with_change': [l.strip() for l in section('demo with the change (must fail)') if 'FAIL' in l or 'Test:' in l][:4],
+   'demo_with_change': ([l.strip() for l in section('demo with the change (must fail)') if 'FAIL' in l or 'Test:' in l] or [l.strip() for l in section('demo with the change (must fail)')])[:4],
    'project_suite_with_change_guard_off': section('project suite with the change (guard off)')[:1],
    'commands': ['tools/intake.sh %s %s <package dir>  (scratch worktree of /repo under /tmp/sx, removed afterwards)'%(cid,ab)],
  },
